@@ -19,6 +19,8 @@ import (
 	"sort"
 	"strings"
 	"sync"
+	"sync/atomic"
+	"syscall"
 )
 
 // Viol is one disagreement between the specification and the code.
@@ -66,7 +68,14 @@ type result struct {
 	Violations  []Viol         `json:"violations"`
 	Samples     []any          `json:"samples"`
 	Counters    map[string]int `json:"counters"`
+	AbortedAt   int            `json:"aborted_at"` // index of the case after which the replay stopped, -1 = ran to the end
 }
+
+// abortReplay is set by a handler that leaves goroutines of the library blocked for good (a hang
+// it has reported): no further case is started in this process, the results so far are written,
+// and the process ends without running exit handlers (the race runtime's finaliser crashes when
+// goroutines are blocked inside a sync primitive).
+var abortReplay atomic.Bool
 
 func runCase(raw json.RawMessage) (o *Out) {
 	o = &Out{raw: raw}
@@ -160,6 +169,8 @@ func cmdReplay(args []string) {
 		os.Exit(3)
 	}
 	outs := make([]*Out, len(cases))
+	var abortedAt atomic.Int64
+	abortedAt.Store(-1)
 	var wg sync.WaitGroup
 	ch := make(chan int)
 	for w := 0; w < *jobs; w++ {
@@ -167,7 +178,13 @@ func cmdReplay(args []string) {
 		go func() {
 			defer wg.Done()
 			for i := range ch {
+				if abortReplay.Load() {
+					continue
+				}
 				outs[i] = runCase(cases[i])
+				if abortReplay.Load() {
+					abortedAt.CompareAndSwap(-1, int64(i))
+				}
 			}
 		}()
 	}
@@ -177,7 +194,11 @@ func cmdReplay(args []string) {
 	close(ch)
 	wg.Wait()
 	res := result{Counters: map[string]int{}, Violations: []Viol{}, Samples: []any{}}
+	res.AbortedAt = int(abortedAt.Load())
 	for i, o := range outs {
+		if o == nil {
+			continue
+		}
 		res.Evaluations++
 		if o.nontrivial {
 			res.Nontrivial++
@@ -207,6 +228,9 @@ func cmdReplay(args []string) {
 	if err := os.WriteFile(*out, b, 0o644); err != nil {
 		fmt.Fprintln(os.Stderr, err)
 		os.Exit(3)
+	}
+	if abortReplay.Load() {
+		syscall.Kill(os.Getpid(), syscall.SIGKILL)
 	}
 }
 
